@@ -1628,6 +1628,9 @@ class SemanticAnalyzer(
                 deleted_items.append(i + 1)
         for i in reversed(deleted_items):
             del items[i]
+            if defn.setter_index is not None and i < defn.setter_index:
+                # Keep the index pointing at the setter after removing an item before it.
+                defn.setter_index -= 1
 
         for item in items[1:]:
             if isinstance(item, Decorator):
